@@ -10,8 +10,8 @@ CONSTANTS
   PMaxIdx = 3
   PMaxHunks = 2
   MMode = "std"
-  MRanks = 3
-  MMaxLen = 3
+  MRanks = 4
+  MMaxLen = 2
   MMaxArgs = 3
   GMode = "std"
   GMaxLen = 3
